@@ -16,6 +16,8 @@ from __future__ import annotations
 
 import random
 
+import time
+
 import numpy as np
 
 from harness import graphs, programs
@@ -455,6 +457,7 @@ def synthetic_pairs(ctx, n):
 
 def run(ctx, replay=None):
     rng = ctx.rng
+    t_run = time.time()  # budgets are relative to the start of the search, not to the Lean build/audit
     ctx.rule = (
         "seeded random array programs (harness.programs, depth 2-6, optimize-graph on/off), each alone and as a group of 2-3 "
         "collections sharing subtrees walked with one shared `seen`; records executed by an in-process executor (random "
@@ -488,7 +491,7 @@ def run(ctx, replay=None):
     corr_skipped = 0
     corr_limit = ctx.scale(2500, 30000)
     for it in range(n):
-        if ctx.elapsed() > budget:
+        if time.time() - t_run > budget:
             ctx.notes["stopped_early_at"] = it
             break
         prog, npenv = programs.gen_clean_program(rng, rng.randint(2, 6), ext=True)
